@@ -1,4 +1,5 @@
 """Dispatch of property ids to the modules that decide them."""
+import json
 from vlib import ToolError, log
 import props_seq
 import props_more
@@ -10,8 +11,10 @@ CONC = {"C03", "C04", "C16"}
 
 
 def dispatch(pid, tier, seed, replay):
-    if pid in SEQ:
-        rc = props_seq.run(pid, tier, seed, replay)
+    if pid == "C14" and replay and json.load(open(replay)).get("spec") == "MemcLin":
+        rc = props_more.run_conc(pid, tier, seed, replay)
+    elif pid in SEQ:
+        rc = props_seq.run(pid, tier, seed, replay, extra=props_more.conc_eviction_extra if pid == "C14" else None)
     elif pid in WIRE:
         rc = props_more.run_wire(pid, tier, seed, replay)
     elif pid in SRV:
